@@ -512,8 +512,10 @@ def main(argv=None):
         "wall_s": round(time.time() - t0, 2),
         "violations": len(reported),
     }
-    os.makedirs(os.path.join(VERIF, "evidence"), exist_ok=True)
-    with open(os.path.join(VERIF, "evidence", f"{prop}.json"), "w") as f:
+    # evaluations of seeded changes run against scratch copies: their evidence goes to a scratch directory, /verif/evidence keeps describing /repo
+    ev_dir = os.environ.get("VERIF_EVIDENCE_DIR") or os.path.join(VERIF, "evidence")
+    os.makedirs(ev_dir, exist_ok=True)
+    with open(os.path.join(ev_dir, f"{prop}.json"), "w") as f:
         json.dump(ev, f, indent=1, default=str)
     print(f"{prop} [{tier}] obligations={n_ob} discharged={len(proved)} undecided={len(undecided)} "
           f"bounded_evaluations={n_bounded} violations={len(reported)} known={len(known_hits)} wall={ev['wall_s']}s")
